@@ -46,7 +46,31 @@ TRUSTED = ["CPython list slicing / slice assignment / defaultdict / issubclass (
            "of seq (the contracts the tape draws are checked against)",
            "IEEE-754 double division and comparison (terminalRatio, termpb) are the same operation in Lean's Float",
            "random.uniform(a, b) is a + (b - a) * random() (CPython's definition; the tape records it that way), repr / str of the "
-           "Python values handed to addTerminal (transported as text)"]
+           "Python values handed to addTerminal (transported as text)",
+           "translator tie: the rendering rules of harness/py2lean_c11.py (docstring), the prelude lean/DeapModel/Core/GenPreludeC11.lean "
+           "(Python index / pop / [e]*n / slice assignment / format / dict with int keys / for / fuel-bounded while) and the signature table SIG of "
+           "harness/props/c11_translate.py (declared types, loop bounds: running out of the declared bound is rendered as an exception)"]
+def translate(repo):
+    """translator tie (lib._translated_obligations): Lean definitions regenerated from `repo`'s current deap/gp.py (PrimitiveTree.root /
+    height / searchSubtree / __setitem__ / __str__, graph) + the committed theorems `Gen.<f> = <model>` of lean/DeapModel/GenEq/C11.lean.tmpl"""
+    from props import c11_translate
+    import json
+    import os
+    import lib
+    tr = c11_translate.translate(repo)
+    try:
+        os.makedirs(os.path.join(lib.OUT, "evidence"), exist_ok=True)
+        with open(os.path.join(lib.OUT, "evidence", "C11.translated.json"), "w") as fh:
+            json.dump({"definitions": len(tr["definitions"]), "theorems": len(tr["theorems"]),
+                       "refused": len(tr["refused"]), "problems": tr["problems"],
+                       "functions": [dict(name=n, status=st, detail=d) for n, st, d in tr.get("table", [])],
+                       "theorem_names": tr["theorems"]}, fh, indent=1)
+            fh.write("\n")
+    except OSError:
+        pass
+    return tr
+
+
 ASSUMPTIONS = ["an index of searchSubtree is read as Python reads a list index: -len <= i < len, a negative one counting from "
                "the end; the returned slice must select exactly the nodes of the subtree rooted at tree[i] (slice.indices), "
                "whether its start is reported negative or normalised is not demanded; other ints are no node's index "
